@@ -352,8 +352,25 @@ func RunScenario(t *testing.T, sc *Scenario, custom func(w *World)) (obs *Obs) {
 	if pct := sc.ParamInt("yield_pct", 0); pct > 0 {
 		yr := NewRng(sc.Seed, "yield")
 		ylog := os.Getenv("VERIF_YIELDLOG") != ""
+		// yield_hot > 0: "buggify" style - a random subset of the yield SITES is hot for this run (a goroutine
+		// reaching a hot site always gives way, at the others never); otherwise every site yields with yield_pct %.
+		hotPct := sc.ParamInt("yield_hot", 0)
+		hot := map[uintptr]bool{}
 		verifyield.Hook = func() {
-			take := yr.Intn(100) < pct
+			take := false
+			if hotPct > 0 {
+				pc, _, _, _ := runtime.Caller(2)
+				h, ok := hot[pc]
+				if !ok {
+					_, file, line, _ := runtime.Caller(2)
+					hr := NewRng(sc.Seed, fmt.Sprintf("hot/%s:%d", filepath.Base(file), line))
+					h = hr.Intn(100) < hotPct
+					hot[pc] = h
+				}
+				take = h
+			} else {
+				take = yr.Intn(100) < pct
+			}
 			if ylog {
 				_, file, line, _ := runtime.Caller(2)
 				obs.Trace = append(obs.Trace, fmt.Sprintf("Y %s:%d %v", filepath.Base(file), line, take))
